@@ -4,10 +4,10 @@
 import LabreaModel.Dotted
 namespace Labrea
 
-theorem mixObj_nil (d : List (String × V)) : mixObj d [] = d := by simp [mixObj]
+theorem mixObj_nil (d : List (String × V)) : mixObj d [] = d := by simp [mixObj, mixObjAux]
 
-theorem mixObj_cons (d : List (String × V)) (k : String) (v : V) (rest : List (String × V)) :
-    mixObj d ((k, v) :: rest) = mixObj (ainsert k (mixVal (alookup k d) v) d) rest := by simp [mixObj]
+theorem mixObj_singleton (d : List (String × V)) (k : String) (v : V) :
+    mixObj d [(k, v)] = ainsert k (mixVal (alookup k d) v) d := by simp [mixObj, mixObjAux]
 
 theorem alookup_eq_none_of_not_mem {α} {k : String} : ∀ {l : List (String × α)}, k ∉ akeys l → alookup k l = Option.none
   | [], _ => rfl
@@ -16,21 +16,46 @@ theorem alookup_eq_none_of_not_mem {α} {k : String} : ∀ {l : List (String × 
     simp only [alookup, Ne.symm h.1, if_false]
     exact alookup_eq_none_of_not_mem (by simpa [akeys] using h.2)
 
-/-- lookup in a merge: the ingredient decides when it has the key (merging sections), the dish otherwise -/
-theorem alookup_mixObj (k : String) : ∀ (i d : List (String × V)), (akeys i).Nodup →
-    alookup k (mixObj d i) = match alookup k i with
+/-- lookup in a merge in progress: keys already processed (`seen`) are not touched again -/
+theorem alookup_mixObjAux (k : String) : ∀ (i : List (String × V)) (seen : List String) (d : List (String × V)),
+    alookup k (mixObjAux seen d i) =
+      if seen.contains k then alookup k d else
+      match alookup k i with
       | Option.none => alookup k d
       | some v => some (mixVal (alookup k d) v)
-  | [], d, _ => by simp [mixObj, alookup]
-  | (k', v) :: rest, d, hnd => by
-    simp only [akeys, List.map_cons, List.nodup_cons] at hnd
-    rw [mixObj_cons, alookup_mixObj k rest _ hnd.2]
-    by_cases hk : k' = k
-    · subst hk
-      have : alookup k' rest = Option.none := alookup_eq_none_of_not_mem (by simpa [akeys] using hnd.1)
-      simp [this, alookup]
-    · simp only [alookup, hk, if_false]
-      rw [alookup_ainsert_other (Ne.symm hk)]
+  | [], seen, d => by simp [mixObjAux, alookup]
+  | (k', v) :: rest, seen, d => by
+    unfold mixObjAux
+    by_cases hs : seen.contains k' = true
+    · rw [if_pos hs, alookup_mixObjAux k rest seen d]
+      by_cases hk : seen.contains k = true
+      · rw [if_pos hk, if_pos hk]
+      · have hne : k' ≠ k := fun h => hk (h ▸ hs)
+        rw [if_neg hk, if_neg hk]
+        simp [alookup, hne]
+    · rw [if_neg hs, alookup_mixObjAux k rest (k' :: seen) _]
+      by_cases hkk : k' = k
+      · subst hkk
+        have h1 : (k' :: seen).contains k' = true := by simp
+        rw [if_pos h1, if_neg hs]
+        simp [alookup, alookup_ainsert_same]
+      · have h1 : (k' :: seen).contains k = seen.contains k := by
+          simp [List.contains_cons, Ne.symm hkk]
+        rw [h1, alookup_ainsert_other (Ne.symm hkk)]
+        simp [alookup, hkk]
+
+/-- lookup in a merge: the ingredient decides when it has the key (merging sections), the dish otherwise
+    (no well-formedness hypothesis: of duplicate keys in an association list only the first counts) -/
+theorem alookup_mixObj' (k : String) (i d : List (String × V)) :
+    alookup k (mixObj d i) = match alookup k i with
+      | Option.none => alookup k d
+      | some v => some (mixVal (alookup k d) v) := by
+  simp [mixObj, alookup_mixObjAux]
+
+theorem alookup_mixObj (k : String) (i d : List (String × V)) (_ : (akeys i).Nodup) :
+    alookup k (mixObj d i) = match alookup k i with
+      | Option.none => alookup k d
+      | some v => some (mixVal (alookup k d) v) := alookup_mixObj' k i d
 
 /-- pre-set scalars and lists win -/
 theorem mix_ingredient_scalar_wins (k : String) (i d : List (String × V)) (v : V) (hnd : (akeys i).Nodup)
@@ -42,7 +67,7 @@ theorem mix_ingredient_scalar_wins (k : String) (i d : List (String × V)) (v : 
 theorem mix_sections_merge (k : String) (i d iv dv : List (String × V)) (hnd : (akeys i).Nodup)
     (hi : alookup k i = some (.dict iv)) (hd : alookup k d = some (.dict dv)) :
     alookup k (mixObj d i) = some (.dict (mixObj dv iv)) := by
-  rw [alookup_mixObj k i d hnd, hi, hd]; simp [mixVal]
+  rw [alookup_mixObj k i d hnd, hi, hd]; simp [mixVal, mixObj]
 
 /-- what the ingredient does not mention is kept -/
 theorem mix_keeps_other (k : String) (i d : List (String × V)) (hnd : (akeys i).Nodup)
@@ -66,6 +91,83 @@ theorem step_dict_found {seg : String} {kvs : List (String × V)} {v : V} (h : s
     (hl : alookup seg kvs = some v) : step seg (.dict kvs) = .found v := by
   rw [step_dict_name _ _ h, hl]
 
+theorem walk_dict_nil_found {ks : List String} {w : V} (h : walk ks (.dict []) = .found w) : ks = [] := by
+  cases ks with
+  | nil => rfl
+  | cons seg rest =>
+    simp only [walk, step] at h
+    cases hi : segIndex? seg <;> simp [hi, alookup] at h
+
+theorem mixVal_dict (old : Option V) (iv : List (String × V)) :
+    ∃ dv, mixVal old (.dict iv) = mix (.dict dv) (.dict iv) ∧
+      (old = some (.dict dv) ∨ (dv = [] ∧ ∀ x, old ≠ some (.dict x))) := by
+  cases old with
+  | none => exact ⟨[], by simp [mixVal, mix, mixObj], Or.inr ⟨rfl, by simp⟩⟩
+  | some o =>
+    cases o with
+    | dict dv => exact ⟨dv, by simp [mixVal, mix, mixObj], Or.inl rfl⟩
+    | _ => exact ⟨[], by simp [mixVal, mix, mixObj], Or.inr ⟨rfl, by simp⟩⟩
+
+/-- **a key found in a merge is found in one of the two dictionaries** (`get_dotted_key` on `mix(a, b)`;
+    no hypothesis on `a`, `b` or the path: index segments, strings, scalars and lists included) -/
+theorem walk_mix_found : ∀ (ks : List String) (a b v : V), walk ks (mix a b) = .found v →
+    (∃ w, walk ks a = .found w) ∨ (∃ w, walk ks b = .found w)
+  | [], a, _, _, _ => Or.inl ⟨a, rfl⟩
+  | seg :: rest, a, b, v, h => by
+    cases b with
+    | dict i =>
+      -- the dish as a dict (`[]` when it is not one: it is replaced)
+      have hm : ∃ d, mix a (.dict i) = .dict (mixObj d i) ∧
+          (∀ w, walk (seg :: rest) (.dict d) = .found w → walk (seg :: rest) a = .found w) := by
+        cases a with
+        | dict d => exact ⟨d, by simp [mix], fun _ h => h⟩
+        | _ =>
+          refine ⟨[], by simp [mix], fun w hw => ?_⟩
+          have := walk_dict_nil_found hw
+          cases this
+      obtain ⟨d, hmix, hback⟩ := hm
+      rw [hmix] at h
+      simp only [walk] at h
+      cases hi : segIndex? seg with
+      | some n => simp [step, hi] at h
+      | none =>
+        rw [step_dict_name _ _ hi, alookup_mixObj'] at h
+        cases hb : alookup seg i with
+        | none =>
+          simp only [hb] at h
+          cases hd : alookup seg d with
+          | none => simp [hd] at h
+          | some v' =>
+            simp only [hd] at h
+            refine Or.inl ⟨v, hback v ?_⟩
+            simp [walk, step_dict_name _ _ hi, hd, h]
+        | some vb =>
+          simp only [hb] at h
+          have hright : ∀ w, walk rest vb = .found w → ∃ w, walk (seg :: rest) (.dict i) = .found w := fun w hw =>
+            ⟨w, by simp [walk, step_dict_name _ _ hi, hb, hw]⟩
+          by_cases hvb : ∃ iv, vb = .dict iv
+          · obtain ⟨iv, rfl⟩ := hvb
+            obtain ⟨dv, hmv, hold⟩ := mixVal_dict (alookup seg d) iv
+            rw [hmv] at h
+            rcases walk_mix_found rest (.dict dv) (.dict iv) v h with ⟨w, hw⟩ | ⟨w, hw⟩
+            · rcases hold with hold | ⟨rfl, _⟩
+              · refine Or.inl ⟨w, hback w ?_⟩
+                simp [walk, step_dict_name _ _ hi, hold, hw]
+              · have := walk_dict_nil_found hw
+                subst this
+                exact Or.inr (hright _ rfl)
+            · exact Or.inr (hright w hw)
+          · have hmv : mixVal (alookup seg d) vb = vb := by
+              cases vb <;> first | rfl | (exact absurd ⟨_, rfl⟩ hvb)
+            rw [hmv] at h
+            exact Or.inr (hright v h)
+    | _ =>
+      all_goals
+        refine Or.inl ⟨v, ?_⟩
+        have hm : ∀ x : V, (∀ i, x ≠ .dict i) → mix a x = a := by
+          intro x hx; cases a <;> cases x <;> first | rfl | (exact absurd rfl (hx _))
+        rwa [hm _ (by intro i hi; cases hi)] at h
+
 /-- `Option.set` followed by a lookup: `get_dotted_key(k, mix(o, set_dotted_key(k, v, {}))) = v` for a
     non-mapping `v` and a key without index segments, whatever `o` contains -/
 theorem set_get (v : V) (hv : v.isDict = false) : ∀ (p : List String), p ≠ [] → NoIdx p → ∀ (d : List (String × V)),
@@ -76,7 +178,7 @@ theorem set_get (v : V) (hv : v.isDict = false) : ∀ (p : List String), p ≠ [
     have hk : segIndex? k = Option.none := hn k (by simp)
     have hm : mixVal (alookup k d) v = v := by cases v <;> simp_all [mixVal, V.isDict]
     have hl : alookup k (mixObj d [(k, v)]) = some v := by
-      rw [mixObj_cons, mixObj_nil, hm]; exact alookup_ainsert_same _ _ _
+      rw [mixObj_singleton, hm]; exact alookup_ainsert_same _ _ _
     rw [walk_cons_found (step_dict_found hk hl)]
     rfl
   | k :: k2 :: rest, _, hn, d => by
@@ -92,14 +194,14 @@ theorem set_get (v : V) (hv : v.isDict = false) : ∀ (p : List String), p ≠ [
     refine ⟨[(k, .dict sub)], hset, ?_⟩
     have hm : ∃ dv, mixVal (alookup k d) (.dict sub) = .dict (mixObj dv sub) := by
       cases hd : alookup k d with
-      | none => exact ⟨[], by simp [mixVal]⟩
+      | none => exact ⟨[], by simp [mixVal, mixObj]⟩
       | some old =>
         cases old with
-        | dict dv => exact ⟨dv, by simp [mixVal]⟩
-        | _ => exact ⟨[], by simp [mixVal]⟩
+        | dict dv => exact ⟨dv, by simp [mixVal, mixObj]⟩
+        | _ => exact ⟨[], by simp [mixVal, mixObj]⟩
     obtain ⟨dv, hdv⟩ := hm
     have hl : alookup k (mixObj d [(k, .dict sub)]) = some (.dict (mixObj dv sub)) := by
-      rw [mixObj_cons, mixObj_nil, hdv]; exact alookup_ainsert_same _ _ _
+      rw [mixObj_singleton, hdv]; exact alookup_ainsert_same _ _ _
     rw [walk_cons_found (step_dict_found hk hl)]
     obtain ⟨sub', hsub', hw⟩ := key dv
     have : sub' = sub := by rw [hsub] at hsub'; exact (Option.some.inj hsub').symm
@@ -115,11 +217,12 @@ theorem set_frame_top (v : V) (p : List String) (k k' : String) (rest : List Str
   | nil =>
     simp only [setPath, ainsert, Option.some.injEq] at hs
     subst hs
-    simp [mixObj, alookup_ainsert_other hne]
+    simp [mixObj_singleton, alookup_ainsert_other hne]
   | cons k2 rest =>
     simp only [setPath, alookup, Option.map_eq_some_iff] at hs
     obtain ⟨sub', _, hs⟩ := hs
     subst hs
-    simp [mixObj, ainsert, alookup_ainsert_other hne]
+    have : ainsert k (V.dict sub') [] = [(k, V.dict sub')] := by simp [ainsert]
+    rw [this, mixObj_singleton, alookup_ainsert_other hne]
 
 end Labrea
